@@ -21,13 +21,13 @@ fn gamma() -> Gamma {
 fn run(r: &mut Run) -> Result<(), MachineryError> {
     let t = r.tier;
     let alpha = [L, SP, HY, NL, W, CR];
-    text_space(r, "C09/texts", &alpha, t.pick(5, 6), &gamma(), M_C09, WidthMode::Display, 5)?;
-    pmachine::p_space(r, "C09/paragraph-machine", t.pick(3, 4), false, true)?;
+    text_space(r, "C09/texts", &alpha, t.pick(5, 7), &gamma(), M_C09, WidthMode::Display, 5)?;
+    pmachine::p_space(r, "C09/paragraph-machine", t.pick(3, 5), false, true)?;
 
     // (d) equivariance under LF -> CRLF for LF texts (including lone CRs)
     let g = Gamma { crlf: vec![false], ..gamma() };
     let bases = g.bases();
-    let n = t.pick(5, 7);
+    let n = t.pick(5, 8);
     let space = Space {
         name: "C09/lf-crlf-equivariance".into(),
         menu: menu(&alpha),
